@@ -54,6 +54,42 @@ def add_dead_handler(t):
     t.addConnectionHintHandler("dead", RefusingHandler())
 
 
+@implementer(IConnectionHintHandler)
+class SlowHandler:
+    """connection-hint handler for `slow:<tub>:<i>` hints: hint_to_endpoint returns a DEFERRED (legal per
+    IConnectionHintHandler: a tor / i2p / socks plugin whose helper has to come up first).  What becomes of hint i is
+    World.slow_plan[i]:  ("never",)  the Deferred never fires;  ("good", dt)  it fires dt seconds later with a working
+    endpoint of the target Tub;  ("bad", dt)  it fails dt seconds later with InvalidHintError;  ("refused", dt)  it
+    fires dt seconds later with an endpoint that refuses at once"""
+
+    def __init__(self, world):
+        self.world = world
+        self.asked = []
+
+    def hint_to_endpoint(self, hint, reactor, update_status):
+        from twisted.internet import defer
+        from foolscap.ipb import InvalidHintError
+        _, name, idx = hint.split(":")
+        plan = self.world.slow_plan[int(idx)]
+        self.asked.append(hint)
+        update_status("launching helper")
+        d = defer.Deferred()
+        net = self.world.net
+
+        def fire():
+            if d.called:
+                return                                   # the connector gave up meanwhile (cancelled)
+            if plan[0] == "good":
+                d.callback((E.FakeEndpoint(net, net.tubs[name]), name))
+            elif plan[0] == "refused":
+                d.callback((_RefusingEndpoint(), name))
+            else:
+                d.errback(failure.Failure(InvalidHintError("helper did not come up")))
+        if plan[0] != "never":
+            reactor.callLater(plan[1], fire)
+        return d
+
+
 class Target(Referenceable):
     def remote_hi(self):
         return 42
@@ -84,7 +120,7 @@ def make_tub_unstarted(net, name, pemdata):
 
 
 class World:
-    def __init__(self, handle_old=None, unstarted=(), third=False):
+    def __init__(self, handle_old=None, unstarted=(), third=False, old_peer=()):
         """unstarted: names of Tubs that are created but whose startService() is delayed (World.start);
         third: a third Tub "T" (a plain lookup target, outside the M/S pair the agreement oracle looks at)"""
         E.reset_clock()
@@ -107,6 +143,8 @@ class World:
         self.epoch = {"M": 0, "S": 0}          # number of restarts
         self.irs = {"M": [], "S": []}          # incarnation strings, index = epoch
         self.handle_old = handle_old
+        self.old_peer = tuple(old_peer)        # Tubs that behave like a pre-0.2.0 peer: their hello carries no my-incarnation
+        self.slow_plan = []                    # what becomes of the `slow:` hints (SlowHandler)
         self.results = []                      # one entry per lookup: dict(who, kind, fired=[...])
         self.retry = {"M": None, "S": None}     # armed: the next errback of x re-enters getBrokerForTubRef with k hints
         self.reentered = 0
@@ -129,6 +167,11 @@ class World:
         else:
             t = make_tub_unstarted(self.net, x, self.pem[x])
         add_dead_handler(t)
+        t.addConnectionHintHandler("slow", SlowHandler(self))
+        if x in self.old_peer:
+            # how foolscap's own tests make an ancient peer (test_negotiate: incarnation_string = ""): the hello then
+            # fails `offer.get("my-incarnation")` at the deciding end, which falls back to handle_old / rejection
+            t.incarnation_string = ""
         self.tubid.setdefault(x, t.tubID)
         t.registerReference(Target(), name="obj")
         if self.handle_old is not None:
@@ -904,6 +947,8 @@ def scenario(kind, seed, p):
         w = World(unstarted=[p["who"]], third=True)
     elif kind == "sync-fail":
         w = World(unstarted=[p["who"]] if p.get("pre") == "unstarted" else (), third=(p.get("target") == "T"))
+    elif kind == "old-peer":
+        w = World(handle_old=p["threshold"], old_peer=("S",))
     else:
         w = World(third=bool(p.get("third")))
     facts = dict(kind=kind)
@@ -1252,6 +1297,168 @@ def scenario(kind, seed, p):
             if bad_:
                 return (lookup_sig(bad_) if "getReference" in bad_ else "agreement"), "after a lookup that failed synchronously (%s; then %s): %s" % (
                     p["bad"], follow, bad_), facts
+        elif kind == "slow-hints":
+            # connection-hint handlers may return a DEFERRED from hint_to_endpoint (tor / i2p / socks helpers).  The FURL
+            # has `slow:` hints whose Deferred never fires / fires dt seconds later with a working endpoint, with an
+            # endpoint that refuses, or with a failure, mixed with ordinary good hints and with hints that fail at once;
+            # the network delivers everything ("free") or nothing ("blackhole").  Every lookup must fire exactly once
+            # within CONNECTION_TIMEOUT of being MADE (the budget covers the handler's start-up); fault-free with an
+            # endpoint available before the time-out it must succeed; black-holed with an attempt still open it must
+            # fail AT the time-out, not earlier; a later lookup shares the connector and is answered with it.
+            x = p["who"]
+            y = other(x)
+            w.slow_plan = [tuple(sl) for sl in p["slow"]]
+            hints = ["slow:%s:%d" % (y, i) for i in range(len(w.slow_plan))]
+            hints += ["fake:%s:%d" % (y, i + 1) for i in range(p.get("good", 0))]
+            hints += list(SYNC_BAD_HINTS[p["bad"]]) if p.get("bad") else []
+            rot = p.get("rot", 0) % len(hints)
+            hints = hints[rot:] + hints[:rot]
+            black = p["net"] == "blackhole"
+            usable = [0] * p.get("good", 0) + [sl[1] for sl in w.slow_plan if sl[0] == "good"]
+            usable_at = min(usable) if usable else None               # when the first working endpoint exists
+            open_till_T = any(sl[0] == "never" for sl in w.slow_plan) or (black and usable_at is not None and usable_at < T)
+            facts.update(hints=hints, usable_at=usable_at)
+            w.lookup(x, hints, reenter=p.get("reenter"))
+            first = w.results[0]
+            cons0 = [(bool(c.active), c.timer is not None and c.timer.active()) for c in w.tub[x].tubConnectors.values()]
+            horizon = T + 1
+            if p.get("second"):
+                horizon += p["second"]
+            early = None
+            for sec in range(horizon):
+                if p.get("second") and sec == p["second"]:
+                    w.lookup(x, hints if p.get("second_same", True) else 1)
+                if sec == T - 1:
+                    early = list(first["fired"])
+                tick(1)
+                if not black:
+                    settle(w, rng, chunk)
+            facts["results"] = [(r["fired"][0] if r["fired"] else "not-fired-yet") for r in w.results]
+            facts["at"] = [list(r["at"]) for r in w.results]
+            hung = [r for r in w.results if not r["fired"] and not r["depth"]]
+            if hung:
+                r0 = hung[0]
+                cons = [(bool(c.active), c.timer is not None and c.timer.active()) for c in w.tub[x].tubConnectors.values()]
+                for i in range(3 * T):
+                    if r0["fired"]:
+                        break
+                    tick(1)
+                    if not black:
+                        settle(w, rng, chunk)
+                how = ("it was answered only %.0f s after it was made (%r)" % (r0["at"][0] - r0["t0"], r0["fired"])) if r0["fired"] else \
+                    ("it was never answered: still pending %.0f s after it was made" % (E.clock.seconds() - r0["t0"]))
+                return ("lookup-exceeds-timeout-while-hint-handler-pending",
+                        "%s looked up %s through hints %r; the handler of the slow: hints returns a Deferred (plan %r), network: %s; "
+                        "lookup #%d (made at t=%.0f) had not fired %d s later, CONNECTION_TIMEOUT is %d s: %s; right after "
+                        "getReference %s.tubConnectors held (active, timer armed)=%r, at the time-out %r, waitingForBrokers %d"
+                        % (x, y, hints, w.slow_plan, p["net"], w.results.index(r0), r0["t0"], horizon, T, how, x, cons0, cons,
+                           sum(len(v) for v in w.tub[x].waitingForBrokers.values())), facts)
+            if open_till_T and early and early != ["ok"]:
+                return "lookup-fired-early", "an attempt was still open (slow hint handler / black-holed connection) but the lookup " \
+                    "fired before CONNECTION_TIMEOUT: %r; hints %r plan %r" % (early, hints, w.slow_plan), facts
+            if not black and usable_at is not None and usable_at < T - 1:
+                if first["fired"] != ["ok"] or w.live_broker_link(x) is None:
+                    return ("no-connection-without-faults",
+                            "fault-free network, a working endpoint was available %d s after the lookup (hints %r, plan %r) but the "
+                            "lookup has result %r, Broker %r" % (usable_at, hints, w.slow_plan, first["fired"], w.live_broker_link(x)), facts)
+            if usable_at is None and first["fired"] == ["ok"]:
+                return "harness", "a lookup without a working endpoint succeeded", facts
+            # late resolutions (after the connector gave up) must not leave anything behind
+            tick(max([sl[1] for sl in w.slow_plan if len(sl) > 1] + [0]) + 2)
+            settle(w, rng, chunk)
+            drain(w, rng, chunk, T)
+            bad = lookups_problem(w, T) or agreement_problem(w)
+            if bad:
+                return (lookup_sig(bad) if "getReference" in bad else "agreement"), "slow hint handlers (hints %r, plan %r, %s): %s" % (
+                    hints, w.slow_plan, p["net"], bad), facts
+            if w.tub[x].tubConnectors and w.live_broker_link(x) is None and all(r["fired"] for r in w.results):
+                c = list(w.tub[x].tubConnectors.values())[0]
+                if c.active:
+                    return ("connector-left-active", "every lookup has fired and no attempt is open, but %s still holds an active "
+                            "TubConnector (timer armed: %r): later lookups would piggy-back on it" % (x, bool(c.timer)), facts)
+        elif kind == "old-peer":
+            # S behaves like a pre-0.2.0 peer (no my-incarnation in its hello); the deciding Tub M has
+            # handle-old-duplicate-connections = threshold, so the AGE of M's existing connection decides:
+            #   restart        the connection (dialled by first_dialer: INBOUND or outbound at M) is `age` s old, S restarts
+            #                  (M not told yet) and dials k hints: age >= threshold -> exactly one offer displaces the stale
+            #                  connection and both share the new one; age < threshold -> M keeps what it has
+            #   one-sided-cut  the same, but the link dies, only S notices and redials (same incarnation)
+            #   parallel       S dials k >= 2 hints at once (fresh / after a connection lost by both): ONE offer is accepted,
+            #                  the others meet a brand-new connection (age 0 < threshold) and are rejected
+            th, ev, age, k = p["threshold"], p["event"], p.get("age", 0), p.get("hints", 1)
+            if ev == "parallel":
+                if p.get("history") == "both-lost":
+                    w.lookup(p["first_dialer"], 1)
+                    settle(w, rng, chunk)
+                    tick(age)
+                    w.cut(w.net.links[0])
+                    settle(w, rng, chunk)
+                n0 = len(w.results)
+                new = w.lookup("S", k)
+                settle(w, rng, chunk)
+                tick(1)
+                settle(w, rng, chunk)
+                accepted = sum(1 for l in new if "connectionLost" in w.end_of(l, "M").protocol.__dict__)
+                facts.update(accepted=accepted, results=[r["fired"] for r in w.results[n0:]])
+                bad = agreement_problem(w)
+                if bad:
+                    return "agreement", "old-style peer, parallel hints: " + bad, facts
+                if accepted != 1 or w.live_broker_link("M") is None or w.results[n0]["fired"] != ["ok"]:
+                    return ("redundant-attempt-displaces-established/old-peer" if accepted > 1 else "no-connection-without-faults",
+                            "old-style peer S (no my-incarnation) dialled %d hints in parallel, M has handle-old=%d: %d offers accepted, "
+                            "brokers M=%r S=%r, lookup %r" % (k, th, accepted, w.live_broker_link("M"), w.live_broker_link("S"),
+                                                              w.results[n0]["fired"]), facts)
+            else:
+                w.lookup(p["first_dialer"], 1)
+                settle(w, rng, chunk)
+                stale = w.live_broker_link("M")
+                if stale is None or w.live_broker_link("S") is None:
+                    return "no-connection-without-faults", "old-style peer: the fault-free first connection (dialled by %s) failed: %r" % (
+                        p["first_dialer"], [r["fired"] for r in w.results]), facts
+                l0 = w.net.links[stale[0]]
+                how = "INBOUND" if l0.client_name == "S" else "outbound"
+                tick(age)
+                if w.live_broker_link("M") != stale:
+                    return "harness", "the idle connection did not survive %d s" % age, facts
+                if ev == "restart":
+                    w.restart("S")
+                else:
+                    w.cut(l0)
+                    w.close_seen(l0, w.end_of(l0, "S").side)
+                held = [("closeseen", stale[0], w.end_of(l0, "M").side)]
+                if w.live_broker_link("M") != stale:
+                    return "harness", "the deciding Tub lost its Broker although it was not told", facts
+                n0 = len(w.results)
+                new = w.lookup("S", k)
+                deliver_all_but(w, rng, chunk, held)
+                tick(1)
+                deliver_all_but(w, rng, chunk, held)
+                bm, bs = w.live_broker_link("M"), w.live_broker_link("S")
+                accepted = sum(1 for l in new if "connectionLost" in w.end_of(l, "M").protocol.__dict__)
+                facts.update(stale=stale, M=bm, S=bs, accepted=accepted, result=w.results[n0]["fired"], existing=how)
+                what = ("old-style peer S (hello without my-incarnation); deciding Tub M has handle-old-duplicate-connections=%d; M's "
+                        "connection to S (dialled by %s: %s at M) was %d s old when %s and dialled %d hint(s): M accepted %d offer(s); M "
+                        "has %r (stale was %r), S has %r, S's lookup: %r"
+                        % (th, l0.client_name, how, age, "S restarted" if ev == "restart" else "the link died, only S noticed", k,
+                           accepted, bm, stale, bs, w.results[n0]["fired"]))
+                if age >= th:
+                    if bm is None or bs is None or bm[0] != bs[0] or bm[0] == stale[0] or w.results[n0]["fired"] != ["ok"]:
+                        return ("old-peer-stale-not-displaced/%s/existing-%s" % (ev, how.lower()),
+                                what + " -- the existing connection is older than the threshold: the attempt must displace it", facts)
+                    if accepted != 1:
+                        return "redundant-attempt-displaces-established/old-peer", what + " -- exactly one must be accepted", facts
+                else:
+                    if accepted or bm != stale:
+                        return ("old-peer-young-connection-displaced/%s" % ev,
+                                what + " -- the existing connection is younger than the threshold: the heuristic must keep it", facts)
+                settle(w, rng, chunk)
+                drain(w, rng, chunk, T)
+                bad = agreement_problem(w) or lookups_problem(w, T)
+                if bad:
+                    return ("agreement" if "getReference" not in bad else lookup_sig(bad)), what + " -- at quiescence: " + bad, facts
+                if age >= th and w.live_broker_link("M") is None:
+                    return ("old-peer-stale-not-displaced/%s/existing-%s" % (ev, how.lower()),
+                            what + " -- the new connection did not survive the late close of the stale one", facts)
         elif kind == "blackhole":
             # nothing is ever delivered: the lookup must fail at CONNECTION_TIMEOUT, not hang, not earlier
             x = p["who"]
@@ -1301,7 +1508,7 @@ def run_case(ctx, kind, seed, p, nontrivial=True):
         ctx.fail("oracle/exception-escaped", "an exception escaped from the real Tubs in scenario %s %r: %r" % (kind, p, e),
                  replay=dict(kind=kind, seed=seed, params=p, tb=traceback.format_exc()))
         return None
-    ctx.case([kind, seed if kind in ("faults", "crossfire", "one-sided-cut", "prestart", "sync-fail") else 0, p], nontrivial=nontrivial)
+    ctx.case([kind, seed if kind in ("faults", "crossfire", "one-sided-cut", "prestart", "sync-fail", "slow-hints", "old-peer") else 0, p], nontrivial=nontrivial)
     ctx.hist("oracle_kind", kind)
     for r in facts.get("results", []) if isinstance(facts.get("results"), list) else []:
         ctx.hist("lookup_result", r if isinstance(r, str) else "/".join(r))
@@ -1382,6 +1589,30 @@ def run_fixed(ctx):
         for fi, follow in enumerate(("good", "blackhole", "reenter")):
             run_case(ctx, "sync-fail", 9830 + fi, dict(who=who, bad=("none", "unknown", "refused")[fi], follow=follow, hints=1, nbad=1, gap=0,
                                                         pre="fresh", target="T"))
+    # connection-hint handlers that answer with a Deferred (never / late / failing), alone and mixed with ordinary hints,
+    # fault-free and black-holed: the time-out runs from the lookup
+    SLOW = [[("never",)], [("good", 50)], [("good", 119)], [("good", 200)], [("bad", 40)], [("refused", 30), ("never",)],
+            [("good", 70), ("bad", 10)], [("never",), ("good", 5)], [("bad", 130), ("never",)], [("good", 0)]]
+    for who in NAMES:
+        for si, slow in enumerate(SLOW):
+            for ni, netk in enumerate(("free", "blackhole")):
+                run_case(ctx, "slow-hints", 9900 + si, dict(who=who, slow=slow, net=netk, good=0, bad=None, rot=si, bytes=(si % 4 == 1)))
+                run_case(ctx, "slow-hints", 9920 + si, dict(who=who, slow=slow, net=netk, good=(si + ni) % 2, rot=si + ni,
+                                                             bad=sorted(SYNC_BAD_HINTS)[si % len(SYNC_BAD_HINTS)] if si % 3 else None,
+                                                             second=(0, 30, 100)[si % 3], second_same=bool(si % 2),
+                                                             reenter=FIXED_REENTER[si % 3] if si % 4 == 0 else None))
+    # an old-style peer (no my-incarnation) and handle-old-duplicate-connections on the deciding Tub: the age of the existing
+    # connection decides, whether that connection was accepted INBOUND or dialled by the decider
+    for th in (30, 60):
+        for first in NAMES:
+            for ev in ("restart", "one-sided-cut"):
+                for ai, age in enumerate((0, th - 1, th, th + 1, 5 * th)):
+                    run_case(ctx, "old-peer", 9950 + ai, dict(threshold=th, first_dialer=first, event=ev, age=age, hints=1 + (ai + th // 30) % 3,
+                                                               bytes=(ai == 3)))
+            for hist in ("fresh", "both-lost"):
+                for k in (2, 3):
+                    run_case(ctx, "old-peer", 9960 + k, dict(threshold=th, first_dialer=first, event="parallel", history=hist, age=2 * th,
+                                                              hints=k))
     # parallel hints after every history, restarted peers
     for who in NAMES:
         for hist in ("fresh", "both-lost", "dialer-lost-only"):
@@ -1420,6 +1651,20 @@ def run_all(ctx):
                                                 pre=rng.choice(["fresh", "fresh", "lost", "peer-restarted", "unstarted"]),
                                                 first_dialer=rng.choice(["who", "peer"]), peer_hints=rng.randint(1, 2),
                                                 target=rng.choice([None, None, None, "T"]), bytes=(i % 4 == 0)))
+    for i in range(ctx.n(10, 1500)):
+        slow = [rng.choice([("never",), ("good", rng.choice([0, 1, 30, 118, 119, 120, 121, 300])), ("bad", rng.choice([0, 5, 119, 150])),
+                            ("refused", rng.choice([1, 60, 125]))]) for k in range(rng.randint(1, 3))]
+        run_case(ctx, "slow-hints", seed(), dict(who=rng.choice(NAMES), slow=slow, net=rng.choice(["free", "blackhole"]),
+                                                 good=rng.choice([0, 0, 1, 2]), bad=rng.choice([None, None] + sorted(SYNC_BAD_HINTS)),
+                                                 rot=rng.randint(0, 5), second=rng.choice([0, 0, 1, 60, 119]),
+                                                 second_same=rng.random() < 0.5, reenter=random_reenter(rng), bytes=(i % 4 == 0)))
+    for i in range(ctx.n(10, 1500)):
+        th = rng.choice([1, 30, 60, 200])
+        run_case(ctx, "old-peer", seed(), dict(threshold=th, first_dialer=rng.choice(NAMES),
+                                               event=rng.choice(["restart", "restart", "one-sided-cut", "parallel"]),
+                                               history=rng.choice(["fresh", "both-lost"]),
+                                               age=rng.choice([0, 1, th - 1, th, th + 1, 3 * th, 1000]), hints=rng.randint(1, 3),
+                                               bytes=(i % 3 == 0)))
     for who in NAMES:
         for hist in ("fresh", "both-lost", "dialer-lost-only", "peer-restarted"):
             for hints in (2, 3):
